@@ -7,6 +7,7 @@
 package verifrt
 
 import (
+	"reflect"
 	"bufio"
 	"crypto/sha256"
 	"fmt"
@@ -94,6 +95,58 @@ func IteByte(c bool, a, b byte) byte {
 }
 func BytesEq(a, b []byte) bool { return string(a) == string(b) }
 func StrEq(a, b string) bool   { return a == b }
+
+// SameState: structural equality of two values; functions compare equal,
+// pointers, maps and channels by identity.
+func SameState(a, b any) bool { return sameState(reflect.ValueOf(a), reflect.ValueOf(b)) }
+
+func sameState(a, b reflect.Value) bool {
+	if a.IsValid() != b.IsValid() {
+		return false
+	}
+	if !a.IsValid() {
+		return true
+	}
+	if a.Type() != b.Type() {
+		return false
+	}
+	switch a.Kind() {
+	case reflect.Func:
+		return true
+	case reflect.Struct:
+		for i := 0; i < a.NumField(); i++ {
+			if !sameState(a.Field(i), b.Field(i)) {
+				return false
+			}
+		}
+		return true
+	case reflect.Array, reflect.Slice:
+		if a.Len() != b.Len() {
+			return false
+		}
+		for i := 0; i < a.Len(); i++ {
+			if !sameState(a.Index(i), b.Index(i)) {
+				return false
+			}
+		}
+		return true
+	case reflect.Interface:
+		return sameState(a.Elem(), b.Elem())
+	case reflect.Pointer, reflect.Map, reflect.Chan, reflect.UnsafePointer:
+		return a.Pointer() == b.Pointer()
+	case reflect.String:
+		return a.String() == b.String()
+	case reflect.Bool:
+		return a.Bool() == b.Bool()
+	case reflect.Int, reflect.Int8, reflect.Int16, reflect.Int32, reflect.Int64:
+		return a.Int() == b.Int()
+	case reflect.Uint, reflect.Uint8, reflect.Uint16, reflect.Uint32, reflect.Uint64, reflect.Uintptr:
+		return a.Uint() == b.Uint()
+	case reflect.Float32, reflect.Float64:
+		return a.Float() == b.Float()
+	}
+	return true
+}
 func Observe(name string, v any) {
 	obs = append(obs, name+"="+Render(v))
 }
